@@ -62,10 +62,15 @@ func Gen(r *kit.Rand, tier kit.Tier, auto bool) Cfg {
 			nextP += uint64(r.PickInt(1, 1, 2))
 
 			if shared && len(usedP) > 0 && r.Chance(1, 4) {
+				// pick among the used pages in sorted order: ranging over the map
+				// would make the generated case depend on the process
+				keys := make([]uint64, 0, len(usedP))
 				for q := range usedP {
-					pp = q
-					break
+					keys = append(keys, q)
 				}
+
+				sort.Slice(keys, func(i, j int) bool { return keys[i] < keys[j] })
+				pp = keys[r.Intn(len(keys))]
 			}
 
 			usedP[pp] = true
